@@ -143,6 +143,19 @@ func runQuota(c *Ctx, idx int, champions bool) {
 			sc.Opts.CompatThreshold = pick(r, 0.3, 1.0, 2.0)
 		}
 	}
+	if champions && idx%8 == 2 {
+		// a population read from a hand-edited file in which every genome lists a hidden neuron that no gene refers to (genomes
+		// that were not born through the library's copier), few species: the champions of the first turnovers carry that neuron
+		sc.Ctor, sc.IsolatedNeuron, sc.BySpeciesFactor = ctorRead, true, 0
+		sc.Opts.CompatThreshold = pick(r, 1e6, 6.0, 3.0)
+		if sc.Opts.PopSize < 20 {
+			sc.Opts.PopSize = pick(r, 20, 33, 50)
+			if sc.Opts.BabiesStolen > sc.Opts.PopSize/2 {
+				sc.Opts.BabiesStolen = sc.Opts.PopSize / 2
+			}
+		}
+		c.Count("scenarios.genomes_with_a_hidden_neuron_no_gene_refers_to", 1)
+	}
 	mon := &quotaMonitor{champions: champions}
 	runScenario(c, sc, mon)
 }
